@@ -33,6 +33,16 @@ type Tags []string
 
 func (Tags) isShape() {}
 
+// a member that gets the marker method from an embedded struct (it declares no method itself)
+type baseShape struct{}
+
+func (baseShape) isShape() {}
+
+type Derived struct {
+	baseShape
+	N int
+}
+
 type Dict map[string]int
 
 func (Dict) isShape() {}
@@ -94,7 +104,7 @@ import "encoding/json"
 
 // mkShape builds a member value of Shape and returns the Kind expected on the wire.
 func mkShape(tag string) (Shape, string) {
-	switch vfChoice(tag, 7) {
+	switch vfChoice(tag, 8) {
 	case 0:
 		return Circle{R: int(vfInt(tag+".r", 0, 9)), Label: vfString(tag+".label", 0, 2, "alnum")}, "Circle"
 	case 1:
@@ -107,6 +117,8 @@ func mkShape(tag string) (Shape, string) {
 		return Dict(nil), "Dict"
 	case 5:
 		return Dict{"k": int(vfInt(tag+".k", 0, 9)), "a": 1}, "Dict"
+	case 6:
+		return Derived{N: int(vfInt(tag+".dn", 0, 9))}, "Derived"
 	}
 	return Sphere{Radius: int(vfInt(tag+".radius", 0, 9))}, "Sphere"
 }
